@@ -517,19 +517,19 @@ def gen_key_cases():
 # ------------------------------------------------------------------------------------------------
 # running graph cases
 # ------------------------------------------------------------------------------------------------
-def run_graph_batch(batch):
+def run_graph_batch(batch, timeout=120):
     """batch = list of (label, G).  Returns list of per-case results or an error description."""
     hin, spans = [], []
     for idx, (label, g) in enumerate(batch):
         ls = ["reset"] + g.lines("c%d_" % idx)
         spans.append((len(hin), len(hin) + len(ls)))
         hin += ls
-    rc, hout, herr = C.run_bin([C.bin_path(HARNESS)], "\n".join(hin) + "\n", timeout=120)
+    rc, hout, herr = C.run_bin([C.bin_path(HARNESS)], "\n".join(hin) + "\n", timeout=timeout)
     hl = hout.splitlines()
     if rc != 0 or len(hl) != len(hin):
         return {"error": "harness rc=%d lines=%d/%d %s" % (rc, len(hl), len(hin), herr[-300:]), "hin": hin, "hout": hl}
     din = [o if o.startswith("def ") else i for i, o in zip(hin, hl)]
-    rc, dout, derr = C.run_bin([C.driver_path(DRIVER)], "\n".join(din) + "\n", timeout=300)
+    rc, dout, derr = C.run_bin([C.driver_path(DRIVER)], "\n".join(din) + "\n", timeout=max(300, timeout))
     dl = dout.splitlines()
     if rc != 0 or len(dl) != len(din):
         return {"error": "driver rc=%d lines=%d/%d %s" % (rc, len(dl), len(din), derr[-300:]), "hin": hin, "hout": hl}
@@ -628,19 +628,21 @@ def run_graph_cases(ctx, cases, label, stats, batch_size=40):
     results = C.pool_map(run_graph_batch, batches)
     for batch, res in zip(batches, results):
         if "error" in res:
-            # bisect: rerun every case on its own to find the one that kills the process
-            found = False
+            # a crash, a hang or an overloaded machine: rerun every case on its own (long timeout); a case that
+            # still fails alone is a violation, the others are judged from their own run
+            redone = []
             for (lab, g) in batch:
-                one = run_graph_batch([(lab, g)])
+                one = run_graph_batch([(lab, g)], timeout=900)
                 if "error" in one:
-                    found = True
                     ctx.violation("C11-%s-crash.txt" % lab,
                                   "# the real code crashed / hung on this input (%s)\n" % one["error"].split("\n")[0]
                                   + "\n".join(["reset"] + g.lines("c0_")) + "\n")
+                    redone = None
                     break
-            if not found:
-                stats["pending"].append(("C11-%s-batch.txt" % label, "# batch failed: %s\n" % res["error"]))
-            continue
+                redone.append(one["cases"][0])
+            if redone is None:
+                continue
+            res = {"cases": redone}
         for (lab, g), (hin, hl, dl) in zip(batch, res["cases"]):
             stats["graphs"] += 1
             stats["nodes"] += len(g.nodes)
